@@ -1,6 +1,7 @@
 import PotasscoVerif.Drv.Calls
 import PotasscoVerif.Model.SmodelsIn
 import PotasscoVerif.Model.SmodelsOut
+import PotasscoVerif.Model.SmodelsSym
 namespace PotasscoVerif.Drv
 open PotasscoVerif
 
@@ -24,6 +25,17 @@ def runSR (args : List String) : String :=
       let r := SmodelsIn.read (e == "1") bytes
       joinSp (r.calls.map showCall ++ [match r.err with | none => "OK" | some l => s!"ERR:{l}:1"])
     | none => "bad-op"
+  | _ => "bad-op"
+
+/-- `so <ext><cEdge><cHeu><filter> <hex>` -/
+def runSO (args : List String) : String :=
+  match args with
+  | [o, h] =>
+    match o.toList, unhex h with
+    | [e, ce, ch, fl], some bytes =>
+      let r := SmodelsSym.read { ext := e == '1', cEdge := ce == '1', cHeu := ch == '1', filter := fl == '1' } bytes
+      joinSp (r.calls.map showCall ++ [match r.err with | none => "OK" | some l => s!"ERR:{l}:1"])
+    | _, _ => "bad-op"
   | _ => "bad-op"
 
 end PotasscoVerif.Drv
